@@ -181,6 +181,19 @@ CHECKS = {
               "key dependence, statistics, spectral support, ratio to the white-noise spectrum of the same draw against the power law / diffusion "
               "multiplier, function form == sampled form, channel j of the multi-channel wrapper == sub-generator j with sub-key j)."),
         note="TLC, dump parser; fixed parameter instances; degenerate RandomDiscontinuities draws (constant raw field) skipped; values of random draws are not predicted; tolerance 1e-9"),
+    "C19": dict(
+        category="model_checking", design_ref="4/C19", engine="dtype",
+        technique="TLC dtype-pipeline machine of one step (MC_Dtype: session x requested dtype x order, promotion lattice) and exact N(0) table + replay in two child sessions (default, x64): dtypes at fft/step_fourier/result for every public class x order, the stiffness ladder 0..-1e15 through the public ETDRKp against the mpmath-evaluated tableau of MC_ETDRK as exact pivot, stiff real-stepper instances, single-vs-double agreement",
+        text=("MC_Dtype runs Canonicalise, Fft, ExpMul / (NonlinIfft, NonlinProd, NonlinFft, CoefMul, Combine) x order, Ifft over the JAX promotion lattice for "
+              "every (x64 flag, requested input dtype, order 0-4) and TLC checks that the result carries the session default float, is never narrower than "
+              "the input, that step_fourier is complex of the session precision and that no intermediate exceeds it; it also evaluates N(0) exactly for "
+              "every documented nonlinear term (unforced equations map zero to zero). The same configurations are executed in a default and an x64 child "
+              "process: every public class x order (dtype at each observable stage, finiteness, exact zero image for unforced classes), the ladder z = 0, "
+              "-1e-8 .. -1e15, the imaginary axis and a left-half-plane fan through ETDRK0-4 with recording nonlinear functions (coefficients, stage "
+              "inputs and results finite, of the session's complex dtype, and within K eps (1+|z|) of the tableau evaluated by mpmath at the z the "
+              "session stores), and fine-grid / high-order-dissipation / large-dt instances of real steppers on smooth O(1) states; whole steps are "
+              "compared across the two sessions with a bound of 300 eps32 scale log2(size) plus 100x the measured sensitivity of that step."),
+        note="finiteness and rounding magnitude are observed on the specification's ladder, not derived (TLC has no floats); bounds K32=400, K64=4e5 (contour quadrature accuracy) times eps (1+|z|); mpmath; the BaseNonlinearFun-free public ETDRKp interface"),
     "C20": dict(
         category="model_checking", design_ref="4/C20", engine="validate",
         technique="TLC decision tables (MC_Validate) replayed into every public class + TLC trace validation (Trace_Validate) of hook-recorded __call__ decisions (own drivers and the repository's tests)",
@@ -250,6 +263,8 @@ def main():
              "kind_free_text": "TLC fact-propagation pipeline + spec->code replay"},
             {"name": "programs", "path": "spec/MC_Programs.tla harness/checks/c06.py", "serves_properties": ["C06"],
              "kind_free_text": "TLC program-shape machine + spec->code replay (integer-exact and metamorphic)"},
+            {"name": "dtype", "path": "spec/MC_Dtype.tla harness/checks/c19.py harness/checks/c19_child.py", "serves_properties": ["C19"],
+             "kind_free_text": "TLC dtype pipeline + two-session replay against an exact pivot"},
             {"name": "rollout", "path": "spec/MC_Rollout.tla spec/Trace_Rollout.tla harness/checks/c14.py", "serves_properties": ["C14"],
              "kind_free_text": "TLC state machine + replay + trace validation"},
         ],
